@@ -87,7 +87,9 @@ fn ht_case(ps: u8, npv: Option<u8>, cc: u8, sr: Option<u8>, kind: u8, sa: u8, da
     let mut fdl = FdlActiveStation::new(p);
     fdl.connectivity_state = ConnectivityState::Online;
     fdl.token_ring.claim_token();
-    if ps != ts { fdl.token_ring.witness_token_pass(ps, ts); }
+    // a populated LAS {3, 7, 15, 42, 50} (ps = 3), or a two-station view when another ps is requested
+    if ps == 3 { for (a, b) in [(3u8, 7u8), (7, 15), (15, 42), (42, 50), (50, 3)] { fdl.token_ring.witness_token_pass(a, b); } }
+    else if ps != ts { fdl.token_ring.witness_token_pass(ps, ts); }
     if fdl.token_ring.previous_station() != ps { return Ok(()); }
     fdl.state = State::ActiveIdle { status_request: sr, new_previous_station: npv, collision_count: cc };
     let now = crate::time::Instant::from_micros(123456);
@@ -99,6 +101,10 @@ fn ht_case(ps: u8, npv: Option<u8>, cc: u8, sr: Option<u8>, kind: u8, sa: u8, da
                 fc: if k == 2 { crate::fdl::FunctionCode::Request { fcb: crate::fdl::FrameCountBit::Inactive, req: crate::fdl::RequestType::FdlStatus } }
                     else { crate::fdl::FunctionCode::Response { state: crate::fdl::ResponseState::Slave, status: crate::fdl::ResponseStatus::Ok } } }, pdu: &pdu }),
     };
+    // reference ring view: a pass is witnessed when it is between others / not last, or when a token from a new
+    // predecessor is accepted (then everything between that predecessor and us has left the ring)
+    let mut want_ring = fdl.token_ring.clone();
+    if kind == 0 && sa != ts && ((da != ts || !is_last) || (sa != ps && npv == Some(sa))) { want_ring.witness_token_pass(sa, da); }
     let _ = fdl.handle_telegram(now, t, is_last);
     let want = if kind == 0 {
         if sa == ts { if cc == 0 { State::ActiveIdle { status_request: sr, new_previous_station: npv, collision_count: 1 } } else { State::ListenToken { status_request: None, collision_count: 0 } } }
@@ -108,6 +114,7 @@ fn ht_case(ps: u8, npv: Option<u8>, cc: u8, sr: Option<u8>, kind: u8, sa: u8, da
     } else if kind == 2 && da == ts && is_last { State::ActiveIdle { status_request: Some(sa), new_previous_station: npv, collision_count: cc } }
     else { State::ActiveIdle { status_request: sr, new_previous_station: npv, collision_count: cc } };
     if fdl.state != want { return Err(format!("state after handle_telegram is {:?}, token acceptance rule says {:?}", fdl.state, want)); }
+    if fdl.token_ring != want_ring { return Err(format!("ring view after handle_telegram is {:?}, expected {:?}", fdl.token_ring, want_ring)); }
     Ok(())
 }
 
